@@ -357,7 +357,7 @@ def verify_unit(unit, tier='quick', dump_dir=None):
                 res.obls.append(OblResult(o.name, o.kind, o.line, 'unsat', 0.0, 'syntactic'))
                 continue
             try:
-                text = solve.to_smt2(c, o.hyps, o.goal)
+                text = solve.to_smt2(c, o.hyps, o.goal, ground=getattr(o, 'ground', False))
             except z3.Z3Exception as e:
                 res.error = ('engine', 'smt encoding of %s: %s' % (o.name, e))
                 return res
